@@ -22,7 +22,7 @@ fn mutate_doc(rng: &mut Rng, v: &mut serde_json::Value) {
     let n = 1 + rng.below(3);
     for _ in 0..n {
         let has_uplink = v.get("uplink").map(|u| u.is_object()).unwrap_or(false);
-        let pickn = rng.below(14);
+        let pickn = rng.below(16);
         if (5..=8).contains(&pickn) && !has_uplink {
             continue;
         }
@@ -52,6 +52,18 @@ fn mutate_doc(rng: &mut Rng, v: &mut serde_json::Value) {
             10 => v["nwkskey"] = rng.pick(&[json!([1, 2, 3]), json!(null), json!("00"), json!((0..17).collect::<Vec<u8>>())]).clone(),
             11 => v["devaddr"] = rng.pick(&[json!([1, 2, 3, 4, 5]), json!(7), json!(null), json!([256, 0, 0, 0])]).clone(),
             12 => v["uplink"] = rng.pick(&[json!(null), json!({}), json!([]), json!({"confirmed": true})]).clone(),
+            14 | 15 => {
+                // the struct given positionally, as a non-self-describing format would encode it:
+                // [confirmed, pending_len, [15 octets]] (and shapes around it)
+                let len = *rng.pick(&[0u64, 1, 14, 15, 16, 17, 100, 255, 256, 70000]);
+                let n = *rng.pick(&[15usize, 15, 15, 14, 16, 0]);
+                let data: Vec<u8> = (0..n).map(|_| rng.next() as u8).collect();
+                v["uplink"] = match rng.below(4) {
+                    0 => json!([rng.chance(1, 2), len]),
+                    1 => json!([rng.chance(1, 2), len, data, 7]),
+                    _ => json!([rng.chance(1, 2), len, data]),
+                };
+            }
             _ => {
                 v["fcnt_up"] = json!(rng.next() as u32);
                 v["adr_ack_cnt"] = json!(rng.next() as u32);
